@@ -309,7 +309,7 @@ def check(ctx):
     # ('every reader for another kind reports nothing' and 'a manual run sees nothing' for commands queued by a reacting run)
     import c04
     import core as _core
-    nf = _core.adopt(ctx, c04, lambda o: o["rule"] in ("C04.a", "C04.b"), "C03.f")
+    nf = _core.adopt(ctx, c04, lambda o: o["rule"] in ("C04.a", "C04.b", "C04.g"), "C03.f")
     ctx.floor("C03.f", nf, 12, "shared cleanup-ordering obligations (C04.a/b)")
     ctx.sample({"trackers": sorted(t.split("::")[-1] for t in trackers), "readers": sorted(r.split("::")[-1] for r in readers)})
 
